@@ -14,7 +14,7 @@ Qed.
 Lemma unesc_esc_small : forall c, (c < 32)%N -> forall rest, json_unesc (esc_char c ++ rest) = option_map (cons c) (json_unesc rest).
 Proof.
   intros c H. apply (small_N 32) in H.
-  revert c H. apply Forall_forall. repeat constructor; intros rest; reflexivity.
+  revert c H. rewrite <- Forall_forall. repeat constructor; intros rest; reflexivity.
 Qed.
 
 Lemma unesc_esc_char : forall c rest, json_unesc (esc_char c ++ rest) = option_map (cons c) (json_unesc rest).
@@ -51,7 +51,7 @@ Lemma tok_of_small : forall c, (c < 32)%N ->
   render_tok (tok_of c) = esc_char c /\ tok_value (tok_of c) = c /\ wf_tok (tok_of c) = true /\
   (forall rest, lex_lit (esc_char c ++ rest) = option_map (cons (tok_of c)) (lex_lit rest)).
 Proof.
-  intros c H. apply (small_N 32) in H. revert c H. apply Forall_forall.
+  intros c H. apply (small_N 32) in H. revert c H. rewrite <- Forall_forall.
   repeat constructor; intros rest; reflexivity.
 Qed.
 
@@ -173,7 +173,7 @@ Proof.
     assert (1 <= List.length (tok_literal t))%nat by (destruct t as [c|e]; [simpl; lia | destruct e; simpl; lia]). lia.
 Qed.
 
-(* the literal decoder agrees with the meaning of the literal exactly on the literals whose only escape is \" *)
+(* the literal decoder agrees with the meaning of the literal exactly on the literals whose only escape is the escaped quote *)
 Theorem literal_decode_spec : forall ts, forallb wf_tok ts = true ->
   (decode_literal (render ts) = toks_value ts <-> only_quote_escapes ts = true).
 Proof.
@@ -187,9 +187,15 @@ Qed.
 Lemma simple_tok_render : forall e k, simple_tok e = Some k -> render_esc k = [92%N; e] /\ wf_tok (TEsc k) = true.
 Proof.
   intros e k H. unfold simple_tok in H.
-  repeat match type of H with
-         | (if N.eqb e ?n then _ else _) = _ => destruct (N.eqb e n) eqn:?E; [apply N.eqb_eq in E; subst; injection H as <-; split; reflexivity|]
-         end. discriminate.
+  destruct (N.eqb e 34) eqn:E1. { apply N.eqb_eq in E1. subst. injection H as <-. split; reflexivity. }
+  destruct (N.eqb e 92) eqn:E2. { apply N.eqb_eq in E2. subst. injection H as <-. split; reflexivity. }
+  destruct (N.eqb e 47) eqn:E3. { apply N.eqb_eq in E3. subst. injection H as <-. split; reflexivity. }
+  destruct (N.eqb e 98) eqn:E4. { apply N.eqb_eq in E4. subst. injection H as <-. split; reflexivity. }
+  destruct (N.eqb e 102) eqn:E5. { apply N.eqb_eq in E5. subst. injection H as <-. split; reflexivity. }
+  destruct (N.eqb e 110) eqn:E6. { apply N.eqb_eq in E6. subst. injection H as <-. split; reflexivity. }
+  destruct (N.eqb e 114) eqn:E7. { apply N.eqb_eq in E7. subst. injection H as <-. split; reflexivity. }
+  destruct (N.eqb e 116) eqn:E8. { apply N.eqb_eq in E8. subst. injection H as <-. split; reflexivity. }
+  discriminate.
 Qed.
 
 Lemma lex_render_n : forall n l ts, (List.length l <= n)%nat -> lex_lit l = Some ts -> render ts = l /\ forallb wf_tok ts = true.
